@@ -25,3 +25,13 @@ func VerifQueueLen(c *Client) (atLeastOnce, exactlyOnce int) { return 0, 0 }
 func VerifReadBufSize() int { return 0 }
 
 func VerifNewVolatile() Persistence { return nil }
+
+func VerifInitSessionPlain(clientID string, p Persistence, c *Config) (*Client, error) {
+	return nil, errVerifNoExport
+}
+
+var errVerifNoExport = errorString("export shim unavailable")
+
+type errorString string
+
+func (e errorString) Error() string { return string(e) }
